@@ -113,6 +113,25 @@ def spellings(out, rnd, cs):
                      lambda p: "sign(hex_packet=%r) and other spellings" % p[:60], nontrivial=lambda p: len(p) >= 2 and wellformed(p))
 
 
+def after_length_stamp(out, rnd):
+    """the signer is handed what the library's own length setter returned (the way the api calls it): the signature is that of the
+    text it was handed, and the same as for a plain copy of that text"""
+    from aioswitcher.device.tools import set_message_length
+    cs = []; io = []
+    for t in template_texts(rnd) + [bytes(rnd.randrange(256) for _ in range(rnd.randrange(4, 120))).hex() for _ in range(60)]:
+        for lf in ("0000", "ffff", t[4:8]):
+            m = t[:4] + lf + t[8:]
+            try: stamped = set_message_length(m)
+            except Exception: continue
+            cs.append(str(stamped))
+            try:
+                a = "ok " + str(sign_packet_with_crc_key(stamped)); b = "ok " + str(sign_packet_with_crc_key(str(stamped) + ""))
+                io.append(a if a == b else "%s for the object returned by set_message_length, %s for an equal plain string" % (a[-12:], b[-12:]))
+            except Exception: io.append("raised")
+    lib.differential(out, "sign-what-the-length-setter-returned", cs, io, lib.run_model([lib.req("sign", p) for p in cs]), lib.run_model([lib.req("sign_spec", p) for p in cs]),
+                     lambda p: "sign(set_message_length(..)) = sign(%r..)" % p[:40], nontrivial=lambda p: len(p) >= 2)
+
+
 def other_types_then_str(out, rnd):
     """valid hex handed over as bytes / bytearray / memoryview (the signer takes str: the call may raise), each followed by ordinary
     calls: what a refused or odd call leaves behind must not change the next signature"""
@@ -156,6 +175,7 @@ def run(tier, rnd, out):
     cs = cases(tier, rnd)
     run_cases("sign", cs, out)
     spellings(out, rnd, cs)
+    after_length_stamp(out, rnd)
     other_types_then_str(out, rnd)
     threads(out, rnd, 20000 if tier == "quick" else 300000)
     # the model's table-driven CRC against binascii.crc_hqx directly (the external call the model replaces)
